@@ -6,7 +6,7 @@ from . import networks as G
 PASSIVE_R = ['resistor', 'conductance', 'impedance', 'admittance', 'lamp', 'resistive_load']
 REACTIVE = ['capacitor', 'inductance']
 SRC_BASIC = ['dc_voltage_source', 'ac_voltage_source', 'dc_current_source', 'ac_current_source']
-WAVES = ['rect', 'tri', 'saw', 'cos', 'sin']
+WAVES = ['rect', 'tri', 'saw', 'cos', 'sin', 'const']      # 'const': a periodic source whose whole series is the k = 0 term
 
 COMP_IDS = ['R1', 'R2', 'R10', 'R9', 'G1', 'Z1', 'Y1', 'Vs', 'Vq', 'V1', 'V10', 'Is', 'Iq', 'I1', 'I10', 'A', 'B', 'Z', 'a', 'z',
             'L1', 'L2', 'L10', 'La', 'C1', 'C2', 'C10', 'Ca', '1', '2', '10', '9', 'Ω', 'src', 'load', 'U', 'Us', 'q', 'R', 'I', 'V', 'K', 'M', 'H1', 'E']
